@@ -186,3 +186,58 @@ func verifRoundTripExecute(r *FrameBodyReader, dest io.Writer, version primitive
 //@   ensures inv(rd) && rd.Body == old(rd.Body) && rd.Reader == old(rd.Reader) && rd.Reader.$pos >= old(rd.Reader.$pos)
 //@   ensures truncated-count: old(rd.Reader.$pos) + 2 > len(rd.Body) ==> result != nil
 //@   modifies rd.Reader.$pos
+
+// ---------------------------------------------------------------------------------------------
+// C11: BATCH. <type: byte><n: short> n x ( <kind: byte> (<query: long string> | <id: short bytes>)
+// <values> ) <consistency: short><rest>. The partial codec keeps every child's values and the tail
+// as sub-slices of the body (nothing is copied or reinterpreted), never reads past the body, and the
+// encoder writes exactly EncodedLength bytes.
+//   bqlen(qs, k): encoded size of the first k children.
+// ---------------------------------------------------------------------------------------------
+
+//@ specfn bqlen(qs, k) = ite(k <= 0, 0, bqlen(qs, k - 1) + 1 + ite(typeis(qs[k - 1].QueryOrId, string), 4 + len(as(qs[k - 1].QueryOrId, string)), ite(typeis(qs[k - 1].QueryOrId, []byte), 2 + len(as(qs[k - 1].QueryOrId, []byte)), 0)) + len(qs[k - 1].Values))
+// sizes a real message can have (children of at most 2^39 bytes of values: no 64-bit overflow of the total)
+//@ macro bqWritable(qs) = forall(k, 0, len(qs), (typeis(qs[k].QueryOrId, string) || typeis(qs[k].QueryOrId, []byte)) && (typeis(qs[k].QueryOrId, string) ==> len(as(qs[k].QueryOrId, string)) < 2147483648) && (typeis(qs[k].QueryOrId, []byte) ==> len(as(qs[k].QueryOrId, []byte)) < 65536) && len(qs[k].Values) < 549755813888)
+
+//@ loop codecs.partialBatchCodec.Decode #1
+//@   invariant reader != nil && inv(reader) && reader.Body == old(as(source, *FrameBodyReader).Body) && reader == as(source, *FrameBodyReader)
+//@   invariant 0 <= i && i <= count && len(queryOrIds) == count && fresh(queryOrIds) && reader.Reader.$pos >= old(as(source, *FrameBodyReader).Reader.$pos) + 3
+//@   invariant forall(k, 0, i, subslice(queryOrIds[k].Values, reader.Body))
+//@   decreases count - i
+
+//@ func codecs.partialBatchCodec.Decode [C11, C17]
+//@   let rd = as(source, *FrameBodyReader)
+//@   let p0 = rd.Reader.$pos
+//@   let b = as(msg, *PartialBatch)
+//@   requires typeis(source, *FrameBodyReader) && rd != nil && inv(rd)
+//@   ensures inv(rd) && rd.Body == old(rd.Body)
+//@   ensures err != nil ==> msg == nil
+//@   ensures truncated-header: old(p0) + 3 > len(rd.Body) ==> err != nil
+//@   ensures shape: err == nil ==> typeis(msg, *PartialBatch) && b != nil && fresh(b)
+//@   ensures type: err == nil ==> b.Type == rd.Body[old(p0)]
+//@   ensures count: err == nil ==> len(b.Queries) == rd.Body[old(p0) + 1] * 256 + rd.Body[old(p0) + 2]
+//@   ensures tail: err == nil ==> b.Parameters == rd.Body[rd.Reader.$pos:] && rd.Reader.$pos >= old(p0) + 5 && b.Consistency == rd.Body[rd.Reader.$pos - 2] * 256 + rd.Body[rd.Reader.$pos - 1]
+//@   ensures values-are-body-bytes: err == nil ==> forall(k, 0, len(b.Queries), subslice(b.Queries[k].Values, rd.Body))
+//@   modifies rd.Reader.$pos
+
+//@ loop codecs.partialBatchCodec.EncodedLength #1
+//@   invariant length == 3 + bqlen(batch.Queries, rangeindex + 1)
+//@   invariant 0 <= length && length <= 3 + (rangeindex + 1) * 1099511627776
+
+//@ func codecs.partialBatchCodec.EncodedLength [C11, C12]
+//@   let b = as(msg, *PartialBatch)
+//@   requires typeis(msg, *PartialBatch) && b != nil && bqWritable(b.Queries) && len(b.Queries) < 65536
+//@   ensures result1 == nil && result0 == 3 + bqlen(b.Queries, len(b.Queries)) + 2 + len(b.Parameters)
+//@   modifies nothing
+
+//@ loop codecs.partialBatchCodec.Encode #1
+//@   invariant dest.$n == old(dest.$n) + 3 + bqlen(batch.Queries, rangeindex + 1) && dest.$n >= 0 && bqlen(batch.Queries, rangeindex + 1) >= 0
+//@   invariant dest.$out[old(dest.$n)] == batch.Type
+
+//@ func codecs.partialBatchCodec.Encode [C11, C12]
+//@   let b = as(msg, *PartialBatch)
+//@   requires typeis(msg, *PartialBatch) && b != nil && dest != nil && dest.$n >= 0 && bqWritable(b.Queries)
+//@   ensures length: result == nil ==> dest.$n == old(dest.$n) + 3 + bqlen(b.Queries, len(b.Queries)) + 2 + len(b.Parameters)
+//@   ensures type-byte: result == nil ==> dest.$out[old(dest.$n)] == b.Type
+//@   ensures dest.$n >= old(dest.$n)
+//@   modifies dest.$n, dest.$out
